@@ -23,7 +23,7 @@ func init() {
 	})
 }
 
-var c07Parts = []string{"a", "A", "b", "0", "01", "a/b", "a~b", "a.b", "a b", " a", "é", "", "~1", "~0", "x~01"}
+var c07Parts = []string{"a", "A", "b", "0", "01", "a/b", "a~b", "a.b", "a b", " a", "é", "", "~1", "~0", "x~01", "a-b", "a:b|c", "_x", "007", "1e3", "-1"}
 
 func identOK(s string) bool {
 	if s == "" {
